@@ -228,11 +228,12 @@ CONC = ConcS()
 
 
 class Val:
-    __slots__ = ("shape", "d")
+    __slots__ = ("shape", "d", "view")
 
     def __init__(self, shape, d):
         self.shape = shape
         self.d = d
+        self.view = None      # for slices: (base Val, lo)
 
     def __repr__(self):
         return f"Val<{self.shape!r}:{self.d!r}>"
@@ -576,7 +577,9 @@ def seq_slice(v: Val, lo, hi) -> Val:
     """v[lo:hi] for normalised 0 <= lo <= hi <= len: a shifted view (lambda arrays)."""
     k = z3.Int(fresh_name("k"))
     arrs = [z3.Lambda([k], z3.Select(a, k + lo)) for a in v.d[0]]
-    return Val(v.shape, (arrs, hi - lo))
+    r = Val(v.shape, (arrs, hi - lo))
+    r.view = (v, lo)
+    return r
 
 
 def concrete_int(z):
